@@ -8,7 +8,7 @@ applied to a length-declared buffer is undischargeable by construction.  Sources
 strcpy_s etc.) have no capacity and produce no obligations: that they are read only up to their terminator is not decided."""
 import os
 from ..ir import Program
-from .. import frontend, capcheck
+from .. import frontend, capcheck, siblings
 from . import capcommon
 from . import prim_common
 
@@ -16,8 +16,9 @@ from . import prim_common
 def run(ck):
     prog, info, st = capcommon.run(ck, "C02", "R", 250, 45)
     prim = prim_common.primitive_rule(ck, prog, "C02", ck.report)
+    sib = siblings.rule(prog, ck.report, "C02", broken=ck.fail_broken)
     fx = selftest(ck)
-    cov = dict(primitives_by_byte_accounting={k: dict(paths=v.get("paths"), loops=v.get("loops"), iteration_paths=v.get("iteration_paths"), assumed_min_count=v.get("assumed_min_count"), call_sites=v.get("call_sites")) for k, v in prim.items()},
+    cov = dict(symmetric_copy_loop_pairs=sib, primitives_by_byte_accounting={k: dict(paths=v.get("paths"), loops=v.get("loops"), iteration_paths=v.get("iteration_paths"), assumed_min_count=v.get("assumed_min_count"), call_sites=v.get("call_sites")) for k, v in prim.items()},
                explanation="%d read obligations over all function definitions: %d discharged, %d outside the reach of the domain in %d functions (listed with reasons, not claimed), "
                "the rest matched against known findings or reported." % (st["total"], st["discharged"], st["outside_reach"], len(st["outside_reach_functions"])),
                obligations=st["total"], discharged=st["discharged"], outside_reach=st["outside_reach"], outside_reach_functions=st["outside_reach_functions"],
@@ -40,4 +41,10 @@ def selftest(ck):
         out[n] = dict(obligations=sum(1 for x in res if x["kind"] == "R"), undischarged=bad)
         if (bad > 0) != bool(w):
             ck.fail_broken("fixture c02.c:%s: %d undischarged read obligations, expected %s" % (n, bad, "some" if w else "none"))
+    p6 = Program(frontend.load_sources([os.path.join(fdir, "c06.c")]))
+    got = []
+    np_ = siblings.rule(p6, lambda key, *a, **k: got.append(key), "C02", funcs=[p6.funcs[n] for n in ("fx6_sym_good", "fx6_sym_dropped_limit", "fx6_sym_dropped_budget")], floor=0)
+    out["siblings"] = dict(pairs=np_, reports=got)
+    if got != ["C02:sibling-loops-disagree:fx6_sym_dropped_limit:n"] or np_ != 3:
+        ck.fail_broken("fixture c06.c: sibling-loop rule gave %s over %d pairs" % (got, np_))
     return out
